@@ -441,7 +441,7 @@ pub fn bfs(cap: usize, end: &str, maxf: usize, budget: u64) -> Report {
     let name = format!("writer-bfs cap={} end={:?} F={}", cap, end, maxf);
     let mut rep = Report::new(&name);
     let faulty = maxf > 0;
-    let kinds: &[Ans] = &[Ans::Other, Ans::Interrupted];
+    let kinds: &[Ans] = &[Ans::Other, Ans::Interrupted, Ans::WouldBlock];
     let mut seen: HashSet<(String, Vec<u8>, Vec<usize>)> = HashSet::new();
     let mut frontier: VecDeque<Vec<Op>> = VecDeque::new();
     let mut maxdepth = 0usize;
@@ -723,4 +723,106 @@ pub fn replay(doc: &Json) -> (bool, String) {
         text.push_str(&format!("  BREACH {:?} at op {}: {}\n", b.props, i, b.what));
     }
     (bad, text)
+}
+
+
+/// One long, fixed (deterministic, not enumerated) history per configuration: tens of thousands of
+/// operations with lengths cycling through a pattern that hits every boundary again and again,
+/// periodic flushes and (optionally) a failure every `fail_every`-th write attempt. Judged by the
+/// same model. It complements the exhaustive short histories against defects that need a lot of
+/// accumulated state (counters that wrap, growth thresholds).
+pub fn long_history(cap: usize, end: &str, n: usize, fail_every: usize) -> Report {
+    let name = format!("writer-long cap={} end={:?} n={} fail_every={}", cap, end, n, fail_every);
+    let mut rep = Report::new(&name);
+    let env = Rc::new(RefCell::new(Env::default()));
+    let mut model = Model::new(cap, end.as_bytes(), fail_every > 0);
+    let mut attempts_total = 0usize;
+    let r = panic::catch_unwind(AssertUnwindSafe(|| {
+        let mut w = MultiLineWriter::with_ending(ScriptedWriter(env.clone()), cap, end);
+        let pattern: Vec<usize> = {
+            let mut p: Vec<usize> = vec![1, 2, 3, 5, 7, cap / 3, cap / 2, cap.saturating_sub(end.len() + 1), cap.saturating_sub(end.len()), cap, cap + 1, 0, 11, 1];
+            p.retain(|l| !(*l == 0 && end.is_empty()));
+            p
+        };
+        for i in 0..n {
+            let flush = i % 17 == 16;
+            {
+                let mut e = env.borrow_mut();
+                e.attempts.clear();
+                e.script.clear();
+                // the answer script for this operation: fail the k-th attempt overall
+                if fail_every > 0 {
+                    let mut sc = VecDeque::new();
+                    for k in 0..3 {
+                        sc.push_back(if (attempts_total + k + 1) % fail_every == 0 { Ans::Other } else { Ans::Ok });
+                    }
+                    e.script = sc;
+                }
+            }
+            let (call, res) = if flush {
+                (Call::Flush, w.flush().map(|_| 0))
+            } else {
+                let m = Met { letter: letter(i), len: pattern[i % pattern.len()] };
+                // letters are reused every 62 operations: forget the previous metric with this letter
+                // (with a flush every 17 operations it left the writer long ago, or was reported then)
+                model.rejected.retain(|r| r.letter != m.letter);
+                model.emitted.retain(|r| r.letter != m.letter);
+                let r = w.write(&m.bytes());
+                (Call::Emit(m), r)
+            };
+            let attempts = std::mem::take(&mut env.borrow_mut().attempts);
+            attempts_total += attempts.len();
+            rep.transitions += 1;
+            // the model keeps every metric ever emitted for its diagnostics: trim what is long gone
+            if model.emitted.len() > 200 {
+                model.emitted.drain(..100);
+                model.written.clear();
+                model.rejected.retain(|m| model.emitted.contains(m));
+                model.datagrams.clear();
+            }
+            for b in model.step(&call, &attempts, &to_res(res)) {
+                rep.violation(Violation {
+                    props: b.props.clone(),
+                    sig: format!("writer-long/{}", b.sig),
+                    what: format!("{} at operation {}: {}", name, i, b.what),
+                    replay: Json::obj().set("engine", "wlong").set("cap", cap).set("end", end).set("n", n).set("fail_every", fail_every),
+                });
+            }
+            if rep.full() {
+                break;
+            }
+        }
+        {
+            let mut e = env.borrow_mut();
+            e.attempts.clear();
+            e.script.clear();
+        }
+        drop(w);
+        let attempts = std::mem::take(&mut env.borrow_mut().attempts);
+        for b in model.step(&Call::Drop, &attempts, &Res::Ok(0)) {
+            rep.violation(Violation {
+                props: b.props.clone(),
+                sig: format!("writer-long/{}", b.sig),
+                what: format!("{} at the final drop: {}", name, b.what),
+                replay: Json::obj().set("engine", "wlong"),
+            });
+        }
+    }));
+    if let Err(p) = r {
+        rep.violation(Violation {
+            props: vec!["C20", "C05", "C06", "C07", "C19"],
+            sig: "writer-long/panic".into(),
+            what: format!("{} panicked: {}", name, crate::common::payload_str(&*p)),
+            replay: Json::obj().set("engine", "wlong"),
+        });
+    }
+    rep.evaluations = rep.transitions;
+    rep.states = rep.transitions;
+    rep.traces = 1;
+    rep.exhaustive = false;
+    rep.distinct(&(cap, end.to_string(), n, fail_every));
+    rep.distinct(&attempts_total);
+    rep.flag("long-fixed-history");
+    rep.sample(Json::obj().set("operations", n).set("write_attempts", attempts_total));
+    rep
 }
